@@ -753,12 +753,18 @@ package vnet
 
 //@ func (c *UDPConn) SetReadDeadline(t time.Time) (err error)
 //@   requires c.readDeadline != nil
-//@   modifies lastUntil
+//@   modifies lastUntil, dlSetN, dlSetObj, dlSetTo
+//@   ensures [forward] (exists k mathint :: old(dlSetN) <= k && k < dlSetN && dlSetObj[k] == ref(c.readDeadline) && dlSetTo[k] == t) &&
+//@            (forall k mathint :: {dlSetTo[k]} old(dlSetN) <= k && k < dlSetN ==> dlSetTo[k] == t)
+//@   ensures [keep] dlSetN > old(dlSetN) && (forall k mathint :: {dlSetTo[k]} k < old(dlSetN) ==> dlSetTo[k] == old(dlSetTo[k]) && dlSetObj[k] == old(dlSetObj[k]))
 //@   ensures [nil] err == nil
 
 //@ func (c *UDPConn) SetDeadline(t time.Time) (err error)
 //@   requires c.readDeadline != nil
-//@   modifies lastUntil
+//@   modifies lastUntil, dlSetN, dlSetObj, dlSetTo
+//@   ensures [forward] (exists k mathint :: old(dlSetN) <= k && k < dlSetN && dlSetObj[k] == ref(c.readDeadline) && dlSetTo[k] == t) &&
+//@            (forall k mathint :: {dlSetTo[k]} old(dlSetN) <= k && k < dlSetN ==> dlSetTo[k] == t)
+//@   ensures [keep] dlSetN > old(dlSetN) && (forall k mathint :: {dlSetTo[k]} k < old(dlSetN) ==> dlSetTo[k] == old(dlSetTo[k]) && dlSetObj[k] == old(dlSetObj[k]))
 //@   ensures [nil] err == nil
 
 // ---- lock discipline (C19)
